@@ -142,7 +142,8 @@ func DecodePropFindRequest(r *http.Request) (*PropFind, error) {
 		}
 	} else {
 		var b [1]byte
-		if _, err := r.Body.Read(b[:]); err != io.EOF {
+		// a Reader may return the last byte together with io.EOF
+		if n, err := r.Body.Read(b[:]); n > 0 || err != io.EOF {
 			return nil, HTTPErrorf(http.StatusBadRequest, "webdav: unsupported request body")
 		}
 		propfind.AllProp = &struct{}{}
